@@ -121,6 +121,16 @@ def build_tuc(release=False):
     return TUC_RELEASE if release else TUC_DEBUG
 
 
+def build_tuc_nofast():
+    """the same sources without the fast-lane feature: every field-mode invocation goes through the general path"""
+    env = dict(ENV)
+    env["CARGO_TARGET_DIR"] = os.path.join(BUILD, "tuc-nofast")
+    rc, out = run_cmd(["cargo", "build", "--offline", "--no-default-features", "--features", "regex"], cwd=REPO, env=env)
+    if rc != 0:
+        raise BuildError("tuc build (no fast-lane) failed\n" + out[-3000:])
+    return os.path.join(BUILD, "tuc-nofast", "debug", "tuc")
+
+
 class BuildError(Exception):
     pass
 
